@@ -3,8 +3,9 @@
 SPEC = dict(
     harness=['h_filter.c'],
     # the default (double) build runs the full harness; the other two real widths run a compact type-generic companion
-    configs=lambda tier: [dict(name='f64'), dict(name='f32', real=4, harness=['h_filter_w.c']), dict(name='f80', real=16, harness=['h_filter_w.c'])],
-    parallel_configs=3,
+    configs=lambda tier: [dict(name='f64'), dict(name='f32', real=4, harness=['h_filter_w.c']), dict(name='f80', real=16, harness=['h_filter_w.c']),
+                          dict(name='cxx', harness=['h_cxxw.c', 'h_cxxw_shim.cc'], hflags=['-DVF_CXXW=16'])],
+    parallel_configs=4,
     level='exploration',
     rule='a_tf: every (num_n, den_n) pair in 0..8 x 0..8 is run in every repetition with every input class (impulse, step, alternating, '
          'random) in two regimes. Exact regime: integer inputs, dyadic coefficients (cyclotomic-product / small-integer / fractional '
@@ -20,7 +21,8 @@ SPEC = dict(
          'distinct_nontrivial counts distinct (num_n, den_n, input class) triples of a_tf in which at least one non-empty history was judged '
          'against the reference (at most 9*9*4 = 324) - NOT the number of filter steps (evaluations).',
     exhaustive={'quick': None, 'thorough': None},
-    require=['w-tf-init-zero-state', 'w-tf-one-step-oracle', 'w-tf-delay-lines', 'w-tf-set-zeroes-new-line', 'w-tf-zero-restores-initial-state', 'w-gen-inside-unit-interval', 'w-rc-one-step-oracle', 'tf-exact-bitwise', 'tf-exact-superposition', 'tf-exact-time-invariance', 'tf-exact-reconfig-bitwise',
+    require=['a_tf::operator()', 'a_tf::init', 'a_tf::set_num', 'a_tf::set_den', 'a_tf::zero', 'a_lpf::gen', 'a_lpf::operator()', 'a_lpf::zero', 'a_hpf::gen', 'a_hpf::operator()', 'a_hpf::zero',
+             'w-tf-init-zero-state', 'w-tf-one-step-oracle', 'w-tf-delay-lines', 'w-tf-set-zeroes-new-line', 'w-tf-zero-restores-initial-state', 'w-gen-inside-unit-interval', 'w-rc-one-step-oracle', 'tf-exact-bitwise', 'tf-exact-superposition', 'tf-exact-time-invariance', 'tf-exact-reconfig-bitwise',
              'tf-real-onestep', 'tf-real-superposition', 'tf-real-time-invariance', 'tf-real-reconfig-onestep',
              'tf-init-zero-state', 'tf-zero-state-initial', 'tf-zero-rerun-identical', 'tf-zero-mid-history',
              'tf-set-num-mid-history', 'tf-set-den-mid-history', 'tf-reinit-mid-history',
